@@ -400,6 +400,8 @@ impl<T> AtomicBucket<T> {
                         // previous block.
                         Ok(ptr) => {
                             let new_tail = unsafe { ptr.deref() };
+                            #[cfg(metrics_verif)]
+                            metrics::__verif::probe("bucket.handover.won");
 
                             // Now push into our new block.
 
@@ -414,6 +416,8 @@ impl<T> AtomicBucket<T> {
                             }
                         }
                         // Somebody else installed the block before us, so let's just start over.
+                        #[cfg(metrics_verif)]
+                        Err(_) if { metrics::__verif::probe("bucket.handover.lost_or_sealed"); false } => unreachable!(),
                         Err(_) => original = value,
                     }
                 }
@@ -531,6 +535,8 @@ impl<T> AtomicBucket<T> {
                 // from the bucket.  Seal it so that a writer arriving from here on retries against
                 // the new tail, instead of storing a value that nobody would ever observe.
                 block.seal();
+                #[cfg(metrics_verif)]
+                metrics::__verif::probe("bucket.clear.block_sealed");
 
                 // We wait for the block to be quiesced to ensure we get any in-flight writes, and
                 // snoozing specifically yields the reading thread to ensure things are given a
